@@ -7,6 +7,7 @@ import json
 import os
 import sys
 import threading
+import time
 
 
 class Sched:
@@ -17,6 +18,8 @@ class Sched:
         # hold shared state) until every other thread has finished or is blocked - one long preemption at a chosen point,
         # the schedule that exposes check-then-act sequences
         self.pause = pause
+        self.paused_at = None
+        self.alive = set()
         self.compile_yields = {}
         self.cv = threading.Condition()
         self.current = None
@@ -33,6 +36,8 @@ class Sched:
         if self.pause is not None and len(ready) > 1 and self.pause[0] in ready \
                 and self.compile_yields.get(self.pause[0], 0) >= self.pause[1]:
             ready.remove(self.pause[0])
+            if self.paused_at is None:
+                self.paused_at = self.compile_yields.get(self.pause[0], 0)
         if not ready:
             self.current = None
             return
@@ -47,6 +52,17 @@ class Sched:
             self.trace.append(nxt)
         self.cv.notify_all()
 
+    def arrive(self, tid, n):
+        """Start line: nobody runs before all n threads are here (otherwise the first thread, which holds the GIL while the
+        others are still being started, runs a short call to completion before there is anybody to interleave with)."""
+        with self.cv:
+            self.waiting.add(tid)
+            self.alive.add(tid)
+            self.cv.notify_all()
+            t0 = time.time()
+            while len(self.waiting) < n and self.current is None and time.time() - t0 < 10:
+                self.cv.wait(0.05)
+
     def yield_(self, tid, in_compile=False):
         with self.cv:
             if in_compile:
@@ -57,7 +73,7 @@ class Sched:
                 self._pick()
             while self.current != tid:
                 seen = self.progress
-                if not self.cv.wait(0.25) and self.progress == seen and self.current != tid:
+                if not self.cv.wait(0.25) and self.progress == seen and self.current != tid and not self._held_back(tid):
                     # the thread holding the token has not reached a yield point for a while: it is blocked in
                     # something the tracer does not see (an Event, a Condition, a lock of its own, a long native
                     # call).  Blocking is legal; hand the token on instead of dead-locking the schedule.
@@ -66,8 +82,15 @@ class Sched:
                     self._pick()
             self.waiting.discard(tid)
 
+    def _held_back(self, tid):
+        """The thread a 'pause' schedule suspends stays suspended while any other thread is still alive, even when the
+        thread that holds the token is in a long native call (it must not take the token over then)."""
+        return (self.pause is not None and tid == self.pause[0] and self.compile_yields.get(tid, 0) >= self.pause[1]
+                and bool(self.alive - {tid}))
+
     def done(self, tid):
         with self.cv:
+            self.alive.discard(tid)
             self.waiting.discard(tid)
             if self.current == tid:
                 self.current = None
@@ -117,8 +140,14 @@ def main():
     sched_ref = {}
     real_lock = CC.lock
 
-    def do_call(call):
-        inputs = {n: C.tensor_from_stored(tuple(t["dims"]), t["fmt"], t["stored"]) for n, t in call["inputs"].items()}
+    def build_inputs(call):
+        return {n: C.tensor_from_stored(tuple(t["dims"]), t["fmt"], t["stored"]) for n, t in call["inputs"].items()}
+
+    def do_call(call, inputs=None):
+        # (under the scheduler the operands are built before the threads start, so that every yield point belongs to the
+        # call under test and pause points are counted from its first line)
+        if inputs is None:
+            inputs = build_inputs(call)
         if call.get("entry") == "operator":
             # Tensor operators with a Python number on one side (they synthesise an assignment and call evaluate)
             import operator as O
@@ -139,9 +168,9 @@ def main():
             res = fn(call["assignment"], call["out_fmt"], **inputs)
         return C.raw_of_tensor(res)
 
-    def safe_call(call):
+    def safe_call(call, inputs=None):
         try:
-            return {"raw": do_call(call)}
+            return {"raw": do_call(call, inputs)}
         except BaseException as e:  # noqa: BLE001
             return {"raised": f"{type(e).__name__}: {e}"[:300]}
 
@@ -170,16 +199,17 @@ def main():
             for call in (workload[:-1] if full_cache else workload):
                 safe_call(call)
         if full_cache:
-            try:
-                have = bridge.kernel_cache_info().currsize
-            except Exception:  # noqa: BLE001 - a cache without cache_info(): assume one entry per warmed call
-                have = len(workload) - 1
+            # distinct problems warmed so far (whatever the cache is made of, it then holds exactly that many entries)
+            have = len({json.dumps([c.get("assignment"), c.get("out_fmt"), sorted((n, t["fmt"]) for n, t in c["inputs"].items()),
+                                    c.get("backend"), c.get("entry") == "operator" and [c.get("op"), c.get("side"), c.get("scalar")]])
+                        for c in workload[:-1]})
             fill_cache(max(0, 128 - have))
         s = Sched(choices, tuple(pause) if pause else None)
         sched_ref["sched"] = s
         sched_ref["tids"] = {}
         CC.lock = CoopLock(sched_ref)
         results = [None] * len(workload)
+        prebuilt = [build_inputs(call) for call in workload]
 
         compile_dir = os.path.dirname(P.__file__)
 
@@ -208,8 +238,9 @@ def main():
             sched_ref["tids"][threading.get_ident()] = tid
             sys.settrace(tracer(tid))
             try:
+                s.arrive(tid, len(workload))
                 s.yield_(tid)
-                results[tid] = safe_call(workload[tid])
+                results[tid] = safe_call(workload[tid], prebuilt[tid])
             finally:
                 sys.settrace(None)
                 s.done(tid)
@@ -223,7 +254,8 @@ def main():
             hung = hung or t.is_alive()
         CC.lock = real_lock
         sched_ref.clear()
-        return results, {"yield_points": len(s.trace), "switches": s.switches, "hung": hung, "token_handed_on": s.stolen}
+        return results, {"yield_points": len(s.trace), "switches": s.switches, "hung": hung, "token_handed_on": s.stolen,
+                         "compile_yields": dict(s.compile_yields), "paused_at": s.paused_at}
 
     def stress(workload, nthreads, rounds):
         all_results = []
@@ -303,6 +335,7 @@ def main():
             def body(tid):
                 sys.settrace(tracer(tid))
                 try:
+                    s.arrive(tid, len(workload))
                     s.yield_(tid)
                     results[tid] = gen_text(workload[tid])
                 finally:
